@@ -94,6 +94,20 @@ def _winit():
     sys.setswitchinterval(1000)
 
 
+def _ambient():
+    """process-wide interpreter state that no library call may leave changed (whatever the interleaving)"""
+    import decimal
+    import locale
+    import warnings
+    return {'recursionlimit': sys.getrecursionlimit(), 'warnings.filters': [repr(f) for f in warnings.filters], 'switchinterval': sys.getswitchinterval(),
+            'int_max_str_digits': sys.get_int_max_str_digits(), 'locale': locale.setlocale(locale.LC_ALL), 'decimal': repr(decimal.getcontext()),
+            'excepthook': repr(sys.excepthook), 'threads': threading.active_count()}
+
+
+def _ambient_diff(a, b):
+    return sorted(k for k in a if a[k] != b[k])
+
+
 def _replay_chunk(chunk):
     sv, cp, ref = _W['sv'], _W['cp'], _W['ref']
     out = []
@@ -101,10 +115,16 @@ def _replay_chunk(chunk):
         scripts = {t + 1: [POOL[p - 1] for p in sc] for t, sc in enumerate(case['scripts'])}
         sv.purge()
         salt = _next_salt()
+        amb0 = _ambient()
         ctl = sched.Controller(sv, len(scripts))
         results, leftover, skipped = ctl.run(scripts, case['sched'], lambda x: _compile(sv, x, salt))
+        amb1 = _ambient()
         ref = {p: _fresh(p, salt) for sc in scripts.values() for p in sc}      # fresh parses, computed AFTER the run
         bad = []
+        if _ambient_diff(amb0, amb1):
+            bad.append('process-wide interpreter state differs after the calls returned: %s (%r -> %r)' % (
+                ', '.join(_ambient_diff(amb0, amb1)), [amb0[k] for k in _ambient_diff(amb0, amb1)][:2], [amb1[k] for k in _ambient_diff(amb0, amb1)][:2]))
+            sys.setrecursionlimit(amb0['recursionlimit'])
         for tid, sc in scripts.items():
             rs = results[tid]
             if len(rs) != len(sc):
@@ -199,9 +219,14 @@ def _line_preempt(args):
             except BaseException as e:  # noqa
                 res['b'] = ('exc', type(e).__name__)
             done_b.set()
+        amb0 = _ambient()
         ta, tb = threading.Thread(target=a), threading.Thread(target=b)
         ta.start(); tb.start(); ta.join(30); tb.join(30)
+        amb1 = _ambient()
         bad = []
+        if _ambient_diff(amb0, amb1):
+            bad.append('process-wide interpreter state differs after the calls returned: %s' % ', '.join(_ambient_diff(amb0, amb1)))
+            sys.setrecursionlimit(amb0['recursionlimit'])
         expect = {}
         for op in (opa, opb):           # single-threaded expectations, computed AFTER the run
             try:
